@@ -12,42 +12,42 @@ E3 = "E3 cooperative scheduler + preemption-bounded DFS (harness/vsched, harness
 CHECKS = {
     "C17": ("model_checking", E1 + " + " + E3,
             "explicit-state enumeration (state x continuation) of snapshot/continue/restore histories on the real DbImpl + exhaustive 24-cell timeline table + preemption-bounded schedule exploration (with global-state-key pruning) of restore || reader || writer || Snapshot()/RootBucket user",
-            "Sequential: for every reachable state A of the index scenario (depth 1 quick / 2 thorough) and every continuation transaction: Snapshot, continuation, RestoreSnapshot; the full image equals A apart from the two markers, GetSnapshotId equals the returned id, each restore listener ran once, the first GetTimelineId issues a fresh id exactly once, the restored database answers reads and accepts every operation exactly like A (reference model), StreamToWriter yields an identical copy, and after every top-level call the reload lock is free again (a leaked lock is reported instead of blocking the restore). Timeline bookkeeping: all 3 modes x marker x stored id x id-function outcome. Schedules: ALL interleavings with <= 2 (thorough: 3) preemptions at reloadLock operations, tracked spawns and in-transaction yield points; every transaction sees the old or the new database in full, the final image is restored or restored+writer, no deadlock, no panic.",
+            "Sequential: for every reachable state A of the index scenario (depth 1 quick / 2 thorough) and every continuation transaction: Snapshot, continuation, RestoreSnapshot; the full image equals A apart from the two markers, GetSnapshotId equals the returned id, each restore listener ran once, the first GetTimelineId issues a fresh id exactly once, the restored database answers reads and accepts every operation exactly like A (reference model), StreamToWriter yields an identical copy, and after every top-level call the reload lock is free again (a leaked lock is reported instead of blocking the restore); a subset of cases continues with a second snapshot and two more restores on the same handle (older snapshot, then newer one), each with fresh id, listeners and timeline bookkeeping. Timeline bookkeeping: all 3 modes x marker x stored id x id-function outcome. Schedules: ALL interleavings with <= 2 (thorough: 3) preemptions at reloadLock operations, tracked spawns and in-transaction yield points; every transaction sees the old or the new database in full, the final image is restored or restored+writer, no deadlock, no panic.",
             "bbolt API calls are atomic (its internal locks are not scheduling points); vsync.RWMutex reproduces Go's writer preference; one restore, one reader, one writer per schedule.",
             "DESIGN.md §4 C17"),
     "C18": ("model_checking", E3,
             "preemption-bounded exhaustive schedule exploration (cooperative scheduler over the real DbImpl/bbolt, state-key pruning) with serial-state oracle; helper pairs under every schedule and pool answer; separate free-running -race pass over all unordered pairs of bodies",
-            "ALL schedules with <= 2 (thorough: 3) preemptions of one writer committing two multi-operation transactions (entity, unique index, set index, link buckets) and 1 (thorough: 2) reader(s) that read a marker, two index-backed queries (with in-scan yields through an ExternalSymbol), the unique index, the set index and links inside one View: every reader tuple equals the serial tuple of exactly one committed state and the final image is the serial result. Every unordered pair of package-level helpers (Parse valid/invalid/type-error with every pooled-instance answer, GetSymbol incl. two different elements of one map symbol, three error classifiers) returns its sequential result under every explored schedule. Data races: every unordered pair of helper, reader and writer bodies runs free under the race detector (20 repetitions x 3 goroutines x 5 calls) and every body whose answer no writer changes must also return its sequential result there.",
+            "ALL schedules with <= 2 (thorough: 3) preemptions of one writer committing two multi-operation transactions (entity, unique index, set index, link buckets) and 1 (thorough: 2) reader(s) that read a marker, two index-backed queries (with in-scan yields through an ExternalSymbol), the unique index, the set index and links inside one View: every reader tuple equals the serial tuple of exactly one committed state and the final image is the serial result. Every unordered pair of package-level helpers (Parse valid/invalid/type-error with every pooled-instance answer, GetSymbol incl. two different elements of one map symbol, IsPublicSymbol/ValidateSymbolsArePublic with a never-seen map element per call, GetPublicSymbols, three error classifiers) returns its sequential result under every explored schedule. Data races: every unordered pair of helper, reader and writer bodies runs free under the race detector (20 repetitions x 3 goroutines x 5 calls) and every body whose answer no writer changes must also return its sequential result there.",
             "The cooperative scheduler cannot see unsynchronised accesses; that clause rests on the race detector over the enumerated body pairs (a detector, not an enumeration of memory orderings). bbolt API calls are atomic.",
             "DESIGN.md §4 C18"),
     "C07": ("fault_enumeration", E1,
             "enumeration of (base state x transaction body x failure kind x failure position x route) on the real Db.Update/Batch path with storage-write fault points in bbolt and joined goroutines",
-            "From every base state of a short kitchen-sink exploration, every single operation and all pairs (thorough: sampled triples) over a core alphabet are run with every failure kind at every position: caller error before each operation and after the last, operation rejected by the reference model (duplicate, missing target, restrict, unusable key), constraint veto for each of 6 stores x 3 change types, failing pre-commit action, and storage write k of N failing for EVERY k (fault points inserted into bbolt's write methods by the overlay); through Db.Update, nested Db.Update and Db.Batch. The failing store call and the transaction must return an error, the database must be byte-identical, and no listener, post-commit hook, commit action or tx-complete listener may run (all library goroutines are joined, no sleeps).",
+            "From every base state of a short kitchen-sink exploration, every single operation and all pairs (thorough: sampled triples) over a core alphabet are run with every failure kind at every position: caller error before each operation and after the last, operation rejected by the reference model (duplicate, missing target, restrict, unusable key), constraint veto for each of 6 stores x 3 change types, a failing pre-commit action alone / before / after / between succeeding ones, and storage write k of N failing for EVERY k (fault points inserted into bbolt's write methods by the overlay); through Db.Update, nested Db.Update and Db.Batch. The failing store call and the transaction must return an error, the database must be byte-identical, and no listener, post-commit hook, commit action or tx-complete listener may run (all library goroutines are joined, no sleeps).",
             "Storage faults are injected at bbolt's Put/Delete/CreateBucket(IfNotExists)/DeleteBucket entry (pages/fsync are not modelled); Batch is sampled (10 ms per call); single caller.",
             "DESIGN.md §4 C07"),
     "C08": ("model_checking", E1,
             "base states from explicit-state BFS x transaction programs routed through parent / plain child / extended child store; multiset of delivered events vs reference event list; goroutines joined through the tracked-spawn overlay",
-            "Ten registration styles (typed, function, untyped, id-only, typed and untyped constraint; sync and async) x three change types on five stores record (store, style, type, id, observed state). For every base state and every 1-2 (thorough: 3) operation transaction - committed, rolled back by a caller error, rejected, via Update and Batch - the recorded multiset must equal the reference list derived from the model (one event per committed change with final/last state, one parent event per child change, none for undone work); commit actions and tx-complete listeners exactly once per committed transaction.",
+            "Ten registration styles (typed, function, untyped, id-only, typed and untyped constraint; sync and async) x three change types on five stores record (store, style, type, id, observed state). For every base state and every 1-2 (thorough: 3) operation transaction - committed (also with two succeeding pre-commit actions), rolled back by a caller error, rejected by the model or by a failing pre-commit action (alone or followed by a succeeding one), via Update and Batch - the recorded multiset must equal the reference list derived from the model (one event per committed change with final/last state, one parent event per child change, none for undone work); commit actions and tx-complete listeners exactly once per committed transaction.",
             "Events on the extended child store for entities without extended data are not specified and ignored; two concurrent Batch callers are outside the property.",
             "DESIGN.md §4 C08"),
     "C09": ("model_checking", E1,
             "explicit-state BFS for soundness on every reachable healthy state + exhaustive enumeration of corruption subsets on three base states against an independent reference differ/repairer",
-            "On every reachable state of the kitchen-sink exploration (depth 3/4) - committed, and uncommitted inside the transaction that just executed the operation - check-only and fix runs must report nothing and change nothing. On three base states ALL subsets of size <= 2 (thorough: 3) of 27 raw-bucket corruption atoms (unique: missing/dangling/wrong-target/stale; set: missing/extra/dangling id, empty key, missing key, stray key; fk: missing/extra/dangling back-reference, dangling reference nullable and not, null in non-nullable; link: one-sided either side, dangling; genuine unique conflict) are applied in an earlier transaction and in the same transaction as the fix: check-only reports every item of the reference diff and leaves the image unchanged, the fix run reaches the reference-repaired image, the re-check reports only unfixable conflicts and changes nothing.",
+            "On every reachable state of the kitchen-sink exploration (depth 3/4) - committed, and uncommitted inside the transaction that just executed the operation - check-only and fix runs must report nothing and change nothing. On three base states (person ids one a prefix of the other) ALL subsets of size <= 2 (thorough: 3) of 27 raw-bucket corruption atoms (unique: missing/dangling/wrong-target/stale; set: missing/extra/dangling id, empty key, missing key, stray key; fk: missing/extra/dangling back-reference, dangling reference nullable and not, null in non-nullable; link: one-sided either side, dangling; genuine unique conflict) are applied in an earlier transaction and in the same transaction as the fix: check-only reports every item of the reference diff and leaves the image unchanged, the fix run reaches the reference-repaired image, the re-check reports only unfixable conflicts and changes nothing.",
             "Reports are matched by the ids/values they mention; extra reports on corrupted databases are not judged; empty link buckets created by reading links and zero-length vs typed-nil null values are normalised.",
             "DESIGN.md §4 C09"),
     "C13": ("exploration", E2,
             "bounded-exhaustive enumeration of values, value trees, field-checker subsets and compound-key lists; write in one committed transaction, read back in a later one",
-            "Every typed setter/getter pair over boundary values (integer extremes, signed zero, infinities, NaN, denormals, NUL-containing and 64 KiB strings, times in several zones incl. year 1/9999), all string lists up to 3 over {\"\",a,b,dup}, ALL value trees up to depth 2 (thorough: 3) over 8 leaf kinds with up to 2 children (nulls, empty maps/lists inside containers), all 16 field-checker subsets (untouched fields byte-identical) and all compound-key lists up to 3 over 8 element shapes with an exhaustive collision table.",
+            "Every typed setter/getter pair over boundary values (integer extremes, signed zero, infinities, NaN, denormals, NUL-containing and 64 KiB strings, times in several zones incl. year 1/9999), all string lists up to 3 over {\"\",a,b,dup}, every such list written over every list of length <= 2 (committed before or earlier in the same transaction, both list setters), ALL value trees up to depth 2 (thorough: 3) over 8 leaf kinds with up to 2 children (nulls, empty maps/lists inside containers), all 16 field-checker subsets (untouched fields byte-identical) and all compound-key lists up to 3 over 8 element shapes with an exhaustive collision table.",
             "The reserved list-size key and empty map keys (rejected loudly by bbolt) are outside the alphabet.",
             "DESIGN.md §4 C13"),
     "C14": ("exploration", E2,
             "exhaustive enumeration of element sets x cursor kinds x Next/Seek scripts against a sorted-slice reference cursor",
-            "For every subset of {\"\",a,a\\x00,ab,b} (incl. the empty set) every cursor kind obtainable through the exported API (49 kinds: forward/reverse raw and typed bucket cursors, index value/key cursors, related-entity, link, ref-counted link, set-symbol runtime incl. one runtime symbol re-opened across rows, stacked, IterateIds/IterateValidIds, IteratorMatchingAllOf/AnyOf with 0/1/2 values, filtered, tree, union, empty) is driven by ALL scripts of up to 3 (thorough: 4) steps over {Next, Seek(v) for 8 targets}; validity and Current() bytes are compared with the reference after every step and the cursor is then drained.",
+            "For every subset of {\"\",a,a\\x00,ab,b} (incl. the empty set) every cursor kind obtainable through the exported API (49 kinds: forward/reverse raw and typed bucket cursors, index value/key cursors, related-entity, link, ref-counted link, set-symbol runtime incl. one runtime symbol re-opened across rows, stacked, IterateIds/IterateValidIds, IteratorMatchingAllOf/AnyOf with 0..3 values present/absent in every position, filtered, tree, union, empty) is driven by ALL scripts of up to 3 (thorough: 4) steps over {Next, Seek(v) for 8 targets}; validity and Current() bytes are compared with the reference after every step and the cursor is then drained.",
             "Next() on an exhausted cursor is outside the alphabet; the set-symbol runtime cursor is positioned through SeekToString.",
             "DESIGN.md §4 C14"),
     "C10": ("exploration", E2,
             "bounded-exhaustive enumeration of token sequences, short byte strings, operand-type mixes and token mutations; oracle = no panic + independent grammar recogniser + evaluation on three datasets",
-            "ALL token sequences up to length 3 (thorough: 4) over 44 lexemes (one or two per token class, identifiers of every symbol kind, three unrecognised characters) with and without blanks, all byte strings up to length 3 over 44 bytes, every symbol-kind x operator x literal-type mix, and single-token mutations of valid sentences are parsed; nothing may panic, everything accepted must be a sentence of ZitiQl.g4 according to an independently written recogniser (so unrecognised characters are never silently dropped) and must evaluate on an empty store, an all-null entity and a populated store without panicking; every input additionally goes through an objectz.ObjectStore (a second symbol table, same three datasets) with the same no-panic and accepted-implies-in-grammar oracle; parse sequences over pooled lexer/parser instances must not leak state.",
+            "ALL token sequences up to length 3 (thorough: 4) over 44 lexemes (one or two per token class, identifiers of every symbol kind, three unrecognised characters) with and without blanks, all byte strings up to length 3 over 44 bytes, every symbol-kind x operator x literal-type mix (incl. literals that lex but cannot be converted, alone and in every array/between position), and single-token mutations of valid sentences are parsed; nothing may panic, everything accepted must be a sentence of ZitiQl.g4 according to an independently written recogniser (so unrecognised characters are never silently dropped) and must evaluate (scan, cursor iteration, and index-cursor providers over 0/1/2 present and absent values) on an empty store, an all-null entity and a populated store without panicking; every input additionally goes through an objectz.ObjectStore (a second symbol table, same three datasets) with the same no-panic and accepted-implies-in-grammar oracle; parse sequences over pooled lexer/parser instances must not leak state.",
             "The recogniser (maximal-munch lexer + memoised backtracking matcher of the parser rules) is trusted as the grammar oracle; only 'accepted implies in grammar' is demanded. Debug-parse diagnostic counts are not part of the property.",
             "DESIGN.md §4 C10"),
     "C11": ("exploration", E2,
@@ -62,12 +62,12 @@ CHECKS = {
             "DESIGN.md §4 C12"),
     "C20": ("exploration", E2,
             "enumeration of typed queries covering every typed AST node kind (measured by a visitor) x ALL public/non-public assignments of the symbols each query mentions",
-            "Every query of the C01/C02 generators (each typed node kind produced at least once - the run fails as vacuous otherwise) is validated under every public/non-public assignment of its symbols on freshly wired stores; accept iff all mentioned symbols are public (map elements follow the map), and a rejection must name a non-public symbol of the query.",
+            "Every query of the C01/C02 generators plus sub-queries carrying their own sort clauses (each typed node kind produced at least once - the run fails as vacuous otherwise) is validated under every public/non-public assignment of its symbols on freshly wired stores; accept iff all mentioned symbols are public (map elements follow the map), and a rejection must name a non-public symbol of the query.",
             "Sub-queries only over the self-referential set (so 'public for the store' is unambiguous); id and fk symbols are always public (no API to register them otherwise).",
             "DESIGN.md §4 C20"),
     "C02": ("exploration", E2,
             "bounded-exhaustive enumeration of sort specifications x skip/limit x predicates x all assignments of the sort fields; differential against a reference sorter/pager over four query routes",
-            "All sort specifications of 0..2 fields (thorough: every pair, 3 and 5 fields), every direction spelling, 56 skip/limit combinations (absent, none, negative, 0, beyond the end) and four predicate shapes are run on ALL assignments of the sort fields over {null,v1,v2} on 4 entities; ids, order and total count from QueryIds, QueryIdsC on a re-used query, QueryWithCursorC over an index cursor and IterateIds must equal the reference. Boundary-value pass: single-field sorts over extreme integers, denormal/huge floats, instants outside the int64-nanosecond range and 1 ns apart, prefix/case/multi-byte strings - all assignments on 3 entities.",
+            "All sort specifications of 0..2 fields (thorough: every pair, 3 and 5 fields), every direction spelling, 56 skip/limit combinations (absent, none, negative, 0, beyond the end) and four predicate shapes are run on ALL assignments of the sort fields over {null,v1,v2} on 4 entities; ids, order and total count from QueryIds, QueryIdsC on a re-used query, QueryWithCursorC over an index cursor and IterateIds must equal the reference, inside the writing transaction and (quick: families of at most one sort field) again on the committed pages. Child stores: on every state of a short parent/child exploration 36 skip/limit combinations x 4 sort specifications through the parent, the plain child and the extended child store (a parent-only row must not consume a child store's skip/limit). Boundary-value pass: single-field sorts over extreme integers, denormal/huge floats, instants outside the int64-nanosecond range and 1 ns apart, prefix/case/multi-byte strings - all assignments on 3 entities.",
             "4 entities; domains of 3 values (2 when two or more sort fields); dotted sort fields are not supported by the engine and not generated.",
             "DESIGN.md §4 C02"),
     "C19": ("exploration", E2,
@@ -77,7 +77,7 @@ CHECKS = {
             "DESIGN.md §4 C19"),
     "C01": ("exploration", E2,
             "bounded-exhaustive enumeration of filter atoms and compositions x all field assignments over tiny domains; differential against an independent reference evaluator on real bolt stores",
-            "Every (symbol kind x operator x literal) atom the grammar and typer admit - scalars of all five types, any-typed map element, fk, dotted one/two-hop symbols, anyOf/allOf/count/isEmpty over direct (seekable), dotted (scanned) and link sets, sub-queries - and all 2-atom (thorough: 3-atom) compositions are evaluated on ALL assignments of the mentioned fields; QueryIds, QueryIdsC and IterateIds must each return exactly the ids the reference evaluator selects. Boundary-value pass: every comparison operator against every boundary literal (extreme integers, denormal/huge floats, instants outside the int64-nanosecond range and 1 ns apart, prefix/case/multi-byte strings) on all assignments of 3 entities.",
+            "Every (symbol kind x operator x literal) atom the grammar and typer admit - scalars of all five types, any-typed map element, fk, dotted one/two-hop symbols, anyOf/allOf/count/isEmpty over direct (seekable), dotted (scanned) and link sets, sub-queries - and all 2-atom (thorough: 3-atom) compositions are evaluated on ALL assignments of the mentioned fields, inside the transaction that wrote the dataset and again in a read transaction after commit; QueryIds, QueryIdsC and IterateIds must each return exactly the ids the reference evaluator selects. Boundary-value pass: every comparison operator against every boundary literal (extreme integers, denormal/huge floats, instants outside the int64-nanosecond range and 1 ns apart, prefix/case/multi-byte strings) on all assignments of 3 entities.",
             "Domains: 3-7 values per field incl. null/empty, 2 entities (3 for single-field families in thorough). Rows whose answer the documentation does not settle (any-typed value of a type the literal cannot read, bool/time-to-string, count over null elements) are skipped and counted. Mixed and/or always parenthesised (C12).",
             "DESIGN.md §4 C01"),
     "C03": ("model_checking", E1,
